@@ -94,7 +94,8 @@ def args_state(b):
     cs = []
     for c in cons:
         if isinstance(c, dict):
-            cs.append(("dict", tuple(sorted(c)), fp(c.get("args"))))
+            cs.append(("dict", tuple(sorted(c)), fp(c.get("args")),
+                       repr(c.get("type")), id(c.get("fun"))))
         elif hasattr(c, "A"):
             cs.append(("lin", fp(np.asarray(c.A)), fp(np.asarray(c.lb)),
                        fp(np.asarray(c.ub))))
